@@ -120,6 +120,7 @@ type pathState struct {
 	csvRecords   [][]value
 	csvModel     bool
 	lastRegexp   string
+	sharedWrites int
 	sql          *sqlScript
 	hashBits     int
 	hashAllowed  []uint64
@@ -669,6 +670,7 @@ func (i *interpreter) runPath(fn *ssa.Function, prefix []decision) {
 	res := i.res
 	ps := &pathState{decisions: prefix, frozen: map[*value]string{}}
 	i.ps = ps
+	i.onceDone = nil
 	i.frozenCount = 0
 	if !i.concreteMode {
 		i.sol.Push()
@@ -694,6 +696,13 @@ func (i *interpreter) runPath(fn *ssa.Function, prefix []decision) {
 					dead = true
 				case "budget":
 					res.Unwind++
+					// A feasible path that does not finish within the step budget is a
+					// non-termination candidate: hand its model to the native replay, which
+					// confirms it (time-out) or shows that only the engine is slow.
+					if !i.concreteMode && i.violated[i.violKey("terminates")] < i.maxViolPerLabel && i.solCheck() == smt.Sat {
+						i.violated[i.violKey("terminates")]++
+						i.modelViolation("budget", "terminates", "step budget exhausted at "+i.curPosString())
+					}
 					res.Inconclusive = append(res.Inconclusive, "step budget exhausted (unwinding failure) at "+i.curPosString())
 				}
 			case targetPanic:
